@@ -388,6 +388,13 @@ type tr struct {
 	ownTg     map[string][]modTarget
 	specFacts map[string]bool
 	stopped   bool
+	pfx       string // name prefix of an inlined callee
+	parent    *tr
+	depth     int
+	retInfo   []inlineRet
+	entryReach string
+	entryHeapsInl map[string]string
+	inlineN   int
 
 	defers []*deferRec
 
@@ -401,6 +408,12 @@ type tr struct {
 	curBlock       *ssa.BasicBlock
 	oldHeaps       map[string]string
 	letCache       map[string]*sv
+}
+
+type inlineRet struct {
+	R     string
+	vals  []string
+	heaps map[string]string
 }
 
 type deferRec struct {
@@ -435,7 +448,7 @@ func newTr(eng *Engine, fn *ssa.Function) *tr {
 
 func (t *tr) fresh(prefix, sort string) string {
 	t.nfresh++
-	n := fmt.Sprintf("%s_%d", prefix, t.nfresh)
+	n := fmt.Sprintf("%s_%s%d", prefix, t.pfx, t.nfresh)
 	fmt.Fprintf(&t.decls, "(declare-const %s %s)\n", n, sort)
 	return n
 }
@@ -559,14 +572,21 @@ func (t *tr) assume(guard, fact string) {
 
 func (t *tr) oblige(kind, name, guard, goal string, pos token.Pos) *Obligation {
 	full := name
+	if t.parent != nil {
+		full = "inlined[" + shortName(t.fnKey) + "]/" + name
+	}
 	t.oblNames[full]++
 	if n := t.oblNames[full]; n > 1 {
 		full = fmt.Sprintf("%s~%d", full, n)
 	}
 	o := &Obligation{Name: full, Kind: kind, Guard: guard, Goal: goal, Pos: pos, Where: t.posStr(pos)}
 	// the obligation is checked at this point of the script: only facts established before it are in scope
-	fmt.Fprintf(&t.out, ";;OBL %d\n", len(t.obls))
-	t.obls = append(t.obls, o)
+	root := t
+	for root.parent != nil {
+		root = root.parent
+	}
+	fmt.Fprintf(&t.out, ";;OBL %d\n", len(root.obls))
+	root.obls = append(root.obls, o)
 	return o
 }
 
@@ -716,7 +736,7 @@ func (t *tr) constTerms(c *ssa.Const) []string {
 
 // define introduces a named constant equal to expr for an SSA value.
 func (t *tr) define(x ssa.Value, sort, expr string) string {
-	n := fmt.Sprintf("v%d_%s", len(t.val), sanitize(x.Name()))
+	n := fmt.Sprintf("v%s%d_%s", t.pfx, len(t.val), sanitize(x.Name()))
 	fmt.Fprintf(&t.decls, "(declare-const %s %s)\n", n, sort)
 	fmt.Fprintf(&t.out, "(assert (= %s %s))\n", n, expr)
 	t.val[x] = []string{n}
@@ -727,7 +747,7 @@ func (t *tr) defineMulti(x ssa.Value, sorts []string, exprs []string) []string {
 	var ns []string
 	base := len(t.val)
 	for i := range exprs {
-		n := fmt.Sprintf("v%d_%s_%d", base, sanitize(x.Name()), i)
+		n := fmt.Sprintf("v%s%d_%s_%d", t.pfx, base, sanitize(x.Name()), i)
 		fmt.Fprintf(&t.decls, "(declare-const %s %s)\n", n, smtSort(sorts[i]))
 		fmt.Fprintf(&t.out, "(assert (= %s %s))\n", n, exprs[i])
 		ns = append(ns, n)
@@ -1138,6 +1158,9 @@ func (t *tr) run() (err error) {
 	cur := map[string]string{}
 	// parameters
 	for i, p := range fn.Params {
+		if t.parent != nil {
+			break // inlined: parameters are bound to the argument terms by the caller
+		}
 		lv := leaves(p.Type())
 		var ns []string
 		for j, ls := range lv {
@@ -1160,11 +1183,17 @@ func (t *tr) run() (err error) {
 		}
 	}
 	for _, fv := range fn.FreeVars {
+		if t.parent != nil {
+			break
+		}
 		n := "fv_" + sanitize(fv.Name())
 		fmt.Fprintf(&t.decls, "(declare-const %s Loc)\n", n)
 		t.val[fv] = []string{n}
 		t.assume("", fmt.Sprintf("(and (> (lref %s) 0) (existed (lref %s)))", n, n)) // a captured variable's cell always exists
 		t.ptrs = append(t.ptrs, "(lref "+n+")")
+	}
+	if t.parent != nil {
+		cur = t.parent.oldHeaps
 	}
 	t.oldHeaps = cur // entry heaps: filled lazily with v0 versions (never overwritten: blocks copy)
 	t.entryEnv = t.ownEnv(nil)
@@ -1190,6 +1219,10 @@ func (t *tr) run() (err error) {
 		if b == fn.Blocks[0] {
 			t.reach[b] = "true"
 			heaps = map[string]string{}
+			if t.parent != nil {
+				t.reach[b] = t.entryReach
+				heaps = copyMap(t.entryHeapsInl)
+			}
 		} else {
 			var edges []string
 			var predHeaps []map[string]string
@@ -1203,7 +1236,7 @@ func (t *tr) run() (err error) {
 				edges = append(edges, t.edgeCond(p, b))
 				predHeaps = append(predHeaps, t.heapAt[p])
 			}
-			rb := fmt.Sprintf("R_%d", b.Index)
+			rb := fmt.Sprintf("R_%s%d", t.pfx, b.Index)
 			fmt.Fprintf(&t.decls, "(declare-const %s Bool)\n", rb)
 			if len(edges) == 0 {
 				fmt.Fprintf(&t.out, "(assert (= %s false))\n", rb)
@@ -1512,7 +1545,7 @@ func (t *tr) cutLoop(b *ssa.BasicBlock, k int, entry map[string]string) map[stri
 		t.oblige("loop", fmt.Sprintf("loop[%d].init/%s", k, inv.Label), rEntry, term, b.Instrs[0].Pos())
 	}
 	// 2. havoc
-	rh := fmt.Sprintf("R_%d_iter", b.Index)
+	rh := fmt.Sprintf("R_%s%d_iter", t.pfx, b.Index)
 	fmt.Fprintf(&t.decls, "(declare-const %s Bool)\n", rh)
 	t.assume("", fmt.Sprintf("(=> %s %s)", rh, rEntry))
 	t.reach[b] = rh
